@@ -261,6 +261,9 @@ CloseErrs == {WithCloseErr(Basic, ce) : ce \in {<<"r1">>, <<"r2">>, <<"r3">>, <<
         \cup {WithCloseErr(Multi, ce) : ce \in {<<"r1">>, <<"r2">>}}
 
 Tree3 == [s1 |-> "prov", s2 |-> "s1", s3 |-> "prov"]
+\* d2 is nested in s1 with a context derived from s1's context (own cancel function); d3 nested in d2, no context
+Tree2d == [s1 |-> "prov", d2 |-> "s1"]
+Tree3d == [s1 |-> "prov", d2 |-> "s1", s3 |-> "d2"]
 Tree2 == [s1 |-> "prov", s2 |-> "s1"]
 Tree1 == [s1 |-> "prov"]
 
